@@ -573,9 +573,38 @@ def main(argv):
         out_lines.append('KNOWN-FINDING: property=%s %s' % (prop, hit['what']))
     replay_dir = os.path.join(VERIF, 'evidence', 'replay')
     if undecided and not violations:
-        for u in undecided:
-            out_lines.append('UNDECIDED %s' % u)
-        status = 2
+        # The verifier could not ingest / decide the current text (exit 2 territory). Before giving up, the witness scripts of this
+        # property - concrete histories written for defects of exactly this kind - are played against the real server built from
+        # this tree: a script whose bad behaviour SHOWS is a failing input on the real code, i.e. a violation with a replayed input;
+        # if none shows, the answer stays UNDECIDED (never an alarm).
+        wd = os.path.join(VERIF, 'replay', 'witness')
+        known_w = {f.get('witness') for f in known['findings']}
+        und_fns = ' '.join(undecided)
+        tried_u = []
+        for wp in sorted(glob.glob(os.path.join(wd, '*.json'))):
+            w = json.load(open(wp))
+            if prop not in w.get('properties', []) or os.path.relpath(wp, VERIF) in known_w:
+                continue
+            # only scripts about a function that is among the undecided ones
+            if w.get('function', '').split('::')[-1] not in und_fns:
+                continue
+            w['path'] = wp
+            rr = run_replay(w)
+            tried_u.append({'witness': os.path.basename(wp), 'reproduced': rr.get('reproduced')})
+            if rr.get('reproduced'):
+                e = {'fn': w.get('function', '?'), 'kind': 'witness script reproduces on the real server while the proof is undecided (%s)' % '; '.join(undecided)[:200],
+                     'clause': w.get('what', '')[:300], 'site': os.path.basename(wp), 'rendered': rr.get('output', '')[-1500:], 'replayed': True,
+                     'input': json.dumps(w.get('script'))[:1500]}
+                violations.append(('replay', e))
+                break
+            if len(tried_u) >= 4:
+                break
+        if not violations:
+            for u in undecided:
+                out_lines.append('UNDECIDED %s' % u)
+            if tried_u:
+                out_lines.append('UNDECIDED witness scripts played on the real server, none shows the bad behaviour: %s' % ', '.join(t['witness'] for t in tried_u))
+            status = 2
     if violations:
         os.makedirs(replay_dir, exist_ok=True)
         rp = os.path.join(replay_dir, '%s.json' % prop)
